@@ -469,7 +469,7 @@ func (df *DataFrame) Apply(function FuncType, axis ...int) (any, error) {
 	startNow := time.Now()
 
 	// default to 0 if user did not pass 'axis' parameter
-	if axis == nil {
+	if len(axis) == 0 {
 		axis = []int{0}
 	}
 	// =============== Creation of Result from function ===============
